@@ -327,10 +327,18 @@ class World(object):
                     adm, g = tab.lookup(name)
                 else:
                     g = tab.by_addr.get(q["dsap"])
-                listening = g is not None and any(
-                    x.group is g and x.role == "listener" and x.open
-                    and not x.dead for x in self.socks[dst])
+                lsn = [x for x in self.socks[dst] if g is not None
+                       and x.group is g and x.role == "listener" and x.open
+                       and not x.dead]
+                listening = bool(lsn)
+                # connection requests to the same listener whose outcome the
+                # clients do not know yet: an upper bound of what can sit in
+                # the listener's backlog when this request arrives
+                ahead = sum(1 for v in self.views.values()
+                            if g is not None and v["group"] is g)
                 self.views[(frame.src, q["ssap"])] = {
+                    "ahead": ahead,
+                    "backlog": min([x.backlog for x in lsn] or [0]),
                     "group": g, "listening": listening,
                     "limbo": name is not None and name in tab.limbo,
                     "poisoned": g is not None and g.poisoned,
@@ -475,6 +483,7 @@ def op_listen(w, s, backlog):
         raise unexpected(err, oracle="listen-error")
     s.role = "listener"
     s.accepted = []
+    s.backlog = backlog
 
     def acceptor():
         while True:
@@ -535,7 +544,8 @@ def finish_connect(w, s, box, dest):
     if view is None:
         # the CONNECT PDU never left (e.g. no address for the client)
         view = {"group": None, "listening": False, "limbo": False,
-                "poisoned": False, "released": False}
+                "poisoned": False, "released": False, "ahead": 0,
+                "backlog": 0}
     g, listening, in_limbo = view["group"], view["listening"], view["limbo"]
     if box.exc is not None:
         s.role = "failed"
@@ -546,6 +556,16 @@ def finish_connect(w, s, box, dest):
                 fail(w, "connect-refused-though-bound", "%s connect(%r) "
                      "refused with reason %02x, a listener is bound at %d"
                      % (s, dest, box.exc.reason, g.addr))
+            if box.exc.reason == 0x20 and listening and \
+                    not view["poisoned"] and not in_limbo and \
+                    view["ahead"] < view["backlog"]:
+                # "temporarily not accepting" is the answer of a listener
+                # whose backlog is full
+                fail(w, "connect-refused-though-room", "%s connect(%r) "
+                     "refused with reason 20h; the listener at %d has a "
+                     "backlog of %d and at most %d request(s) can be waiting "
+                     "in it" % (s, dest, g.addr, view["backlog"],
+                                view["ahead"]))
             return
         if isinstance(box.exc, nfc.llcp.Error):
             w.count("connect-error")
@@ -1139,7 +1159,8 @@ OPS = {
                          st.sampled_from(["name", "name", "listener"]),
                          st.lists(st.sampled_from([
                              "server-first", "server-first", "client-first",
-                             "both", "reader-blocked", "no-read"]),
+                             "both", "reader-blocked", "no-read",
+                             "server-late", "server-late"]),
                              min_size=1, max_size=3),
                          st.integers(0, 2), st.booleans(),
                          st.sampled_from(["name", "addr", "auto", "none"])),
@@ -1159,11 +1180,19 @@ def session_ops(side, i1, how, orders, nmsg, close_listener, rebind):
     service = [["sock", side, "dlc"], ["bind", side, -1, n1, False],
                ["listen", side, -1, 2], ["pump", side]]
     ops = list(service)
+    late = 0
     for order in orders:
         ops += [["sock", peer, "dlc"],
                 ["connect", peer, -1, how, v1 if how == "name" else -1],
                 ["pump", side], ["pump", side]]
         ops += [["send", peer, -1], ["send", side, -1]][:nmsg]
+        if late:
+            # the server application gets round to closing the ends of
+            # connections its clients left earlier (oldest first) only now,
+            # with the next connection from the re-used address in service
+            ops += [["closerole", side, 0, "accepted"], ["pump", side]] * late
+            ops += [["recv", peer, -1], ["recv", side, -1]][:nmsg]
+            late = 0
         if order == "reader-blocked":
             ops += [["recvall", peer, -1]]
         if order in ("server-first", "reader-blocked", "no-read"):
@@ -1172,6 +1201,10 @@ def session_ops(side, i1, how, orders, nmsg, close_listener, rebind):
             if order == "server-first":
                 ops += [["recvall", peer, -1], ["pump", side]]
             ops += [["closerole", peer, -1, "client"], ["pump", side]]
+        elif order == "server-late":
+            ops += [["closerole", peer, -1, "client"], ["pump", side],
+                    ["pump", side]]
+            late += 1
         elif order == "client-first":
             ops += [["closerole", peer, -1, "client"], ["pump", side],
                     ["pump", side], ["recvall", side, -1], ["pump", side],
@@ -1180,6 +1213,7 @@ def session_ops(side, i1, how, orders, nmsg, close_listener, rebind):
             ops += [["closerole", peer, -1, "client"],
                     ["closerole", side, -1, "accepted"], ["pump", side],
                     ["pump", side]]
+    ops += [["closerole", side, 0, "accepted"], ["pump", side]] * late
     if close_listener:
         ops += [["closerole", side, -1, "listener"], ["pump", side]]
     if rebind == "name":
